@@ -141,6 +141,12 @@ def materialise(sc, root):
             name += ".txt"      # a file that is no test document by its name
         # with a directory argument the last document lives in a nested directory
         sub = os.path.join(docs_dir, "nested", "deeper") if sc.get("dirarg") and i == len(sc["docs"]) - 1 and i > 0 else docs_dir
+        if sub != docs_dir and len(sc["docs"]) == 3:
+            # with three documents the nested directory is reached through a symbolic link to a directory outside
+            outside = os.path.join(root, "outside")
+            os.makedirs(os.path.join(outside, "deeper"), exist_ok=True)
+            if not os.path.islink(os.path.join(docs_dir, "nested")):
+                os.symlink(outside, os.path.join(docs_dir, "nested"))
         os.makedirs(sub, exist_ok=True)
         path = os.path.join(sub, name)
         if doc["fault"] != "missing":
